@@ -56,3 +56,22 @@ Theorem C07_learning_gate : forall c s sa,
    handle_sample c s sa = (fst (handle_cc s sa), emit (snd (handle_cc s sa)))).
 Proof. intros c s sa H. split; [apply learning_gate; exact H|apply learning_gate_open; exact H]. Qed.
 Print Assumptions C07_learning_gate.
+
+(* ---- The FULL machine (float layer + state machine, [frun]; see C01_machine_bridge): C07's quantifier on the raw history is
+   "any axis events, SYN, presses / releases of the CC-learning key" ([c07_fevent]); that every sample belongs to the family A
+   becomes a hypothesis on the configuration: every axis entry the device can find in any mapping is in A ([axes_in]).
+   Arbitrary deadzones (NaN included) and axis ranges. *)
+From HIDI Require Import Model.AnalogF Proofs.MachineBridge.
+
+Theorem C07_machine_at_most_one : forall c fc ai A h r st outs,
+  cc_family A -> axes_in c A -> Forall (c07_fevent c) (h ++ r) -> frun c fc ai h = Some (st, outs) ->
+  let s := fst st in let R := recv_cc [] (all_midi outs) in
+  forall a, In a A -> a_bidi a = true -> cc_value R (pos_key s a) = 0 \/ cc_value R (neg_key s a) = 0.
+Proof. exact machine_c07_at_most_one. Qed.
+Print Assumptions C07_machine_at_most_one.
+
+Theorem C07_machine_invariant : forall c fc ai A h st outs,
+  cc_family A -> axes_in c A -> Forall (c07_fevent c) h -> frun c fc ai h = Some (st, outs) ->
+  Inv7 A (fst st) (recv_cc [] (all_midi outs)).
+Proof. exact machine_c07_invariant. Qed.
+Print Assumptions C07_machine_invariant.
